@@ -213,6 +213,34 @@ class Effects:
                         missing = [c for c in classes if not self._exc_has_attr(c, x.attr)]
                         if missing:
                             add(x, "AttributeError", "handler-attr")
+        # ---- a dictionary / set / list changed in size while it is being iterated
+        for lp in own_nodes(f.node):
+            if not isinstance(lp, ast.For):
+                continue
+            it = lp.iter
+            kind_ = "list"
+            if isinstance(it, ast.Call) and isinstance(it.func, ast.Attribute) and it.func.attr in ("items", "keys", "values") and not it.args:
+                it, kind_ = it.func.value, "dict"
+            if not isinstance(it, (ast.Name, ast.Attribute)):
+                continue
+            base = norm(it)
+            for x in ast.walk(ast.Module(body=lp.body, type_ignores=[])):
+                grow = None
+                if isinstance(x, ast.Call) and isinstance(x.func, ast.Attribute) and norm(x.func.value) == base:
+                    if x.func.attr in ("pop", "popitem", "clear", "remove", "discard", "add") or (kind_ == "dict" and x.func.attr in ("update", "setdefault")):
+                        grow = x
+                    if kind_ == "list" and x.func.attr in ("pop", "remove", "clear", "add", "discard"):
+                        grow = x
+                elif isinstance(x, ast.Delete) and any(isinstance(t, ast.Subscript) and norm(t.value) == base for t in x.targets):
+                    grow = x
+                if grow is not None and kind_ == "dict":
+                    add(grow, "RuntimeError", "mutation-while-iterating")
+                elif grow is not None and isinstance(grow, ast.Call) and grow.func.attr in ("add", "discard", "remove", "pop", "clear") \
+                        and self._is_set_or_dict_name(f, it):
+                    add(grow, "RuntimeError", "mutation-while-iterating")
+        # ---- use of a value that the callee may have answered with None
+        for rp_node, exc_, why_ok, src in self._none_derefs(f, cfg, sites):
+            add(rp_node, exc_, "none-deref:" + src, why_ok)
         for n in own_nodes(f.node):
             # ---- explicit raise
             if isinstance(n, ast.Raise):
@@ -443,6 +471,130 @@ class Effects:
         if g:
             return g
         return None
+
+    def _is_set_or_dict_name(self, f: FunctionInfo, e: ast.AST) -> bool:
+        if not isinstance(e, ast.Name):
+            return False
+        for n in own_nodes(f.node):
+            if isinstance(n, (ast.Assign, ast.AnnAssign)) and getattr(n, "value", None) is not None:
+                ts = n.targets if isinstance(n, ast.Assign) else [n.target]
+                if any(isinstance(t, ast.Name) and t.id == e.id for t in ts):
+                    v = n.value
+                    if isinstance(v, (ast.Set, ast.SetComp, ast.Dict, ast.DictComp)) or (
+                            isinstance(v, ast.Call) and isinstance(v.func, ast.Name) and v.func.id in ("set", "dict", "OrderedDict", "defaultdict")):
+                        return True
+        return False
+
+    # ------------------------------------------------------------------ may-be-None results
+    def may_return_none(self, t: FunctionInfo, idx: Optional[int]) -> bool:
+        """``t`` may answer None (idx None) or a tuple whose element ``idx`` is None, by an explicit return"""
+        key = (t.qualname, idx)
+        memo = self.__dict__.setdefault("_may_none", {})
+        if key in memo:
+            return memo[key]
+        memo[key] = False
+        res = False
+        from .dataflow import flow_of
+
+        tflow = flow_of(t.node) if t.name != "<module>" else None
+        # the annotation says so
+        ann = t.node.returns
+        if ann is not None:
+            txt = norm(ann)
+            if idx is None and ("None" in [x.strip() for x in txt.replace("Optional[", "None|").split("|")] or txt.startswith("Optional[")):
+                res = True
+            if idx is not None and ("tuple[None, None]" in txt.replace("Tuple", "tuple")):
+                res = True
+        for n in own_nodes(t.node):
+            if not isinstance(n, ast.Return):
+                continue
+            v = n.value
+            if isinstance(v, ast.Name) and tflow is not None:
+                node = tflow.node_of(n)
+                ds = tflow.defs_reaching(node.id, v.id) if node is not None else []
+                for d in ds:
+                    dv = d.value if d.kind == "assign" else None
+                    if idx is None and isinstance(dv, ast.Constant) and dv.value is None:
+                        res = True
+                    if idx is not None and isinstance(dv, ast.Tuple) and idx < len(dv.elts) and isinstance(dv.elts[idx], ast.Constant) \
+                            and dv.elts[idx].value is None:
+                        res = True
+                continue
+            if idx is None:
+                if v is None or (isinstance(v, ast.Constant) and v.value is None):
+                    res = True
+            elif isinstance(v, ast.Tuple) and idx < len(v.elts) and isinstance(v.elts[idx], ast.Constant) and v.elts[idx].value is None:
+                res = True
+        memo[key] = res
+        return res
+
+    def _none_derefs(self, f: FunctionInfo, cfg: CFG, sites):
+        """(node, exception, discharge reason or None) for dereferences of a local that holds the result of a library /
+        dependency function which may answer None, and is used without a dominating truth test"""
+        from .dataflow import flow_of
+
+        out = []
+        if f.name == "<module>":
+            return out
+        flow = flow_of(f.node)
+        cand: Dict[str, List] = {}
+        srcs: Dict[int, str] = {}
+        for d in flow.all_defs:
+            if d.value is None or not isinstance(d.value, ast.Call) or d.kind not in ("assign", "unpack"):
+                continue
+            cs = sites.get(id(d.value))
+            if cs is None or not cs.targets or cs.via in ("factory", "class", "cha", "unknown-method", "computed", "indirect", "callable-value"):
+                continue  # a constructor answers an instance; unresolved receivers give no claim
+            idx = d.index if d.kind == "unpack" else None
+            ts = [t for t in cs.targets if t.module.kind in ("library", "dep", "config")]
+            real = []
+            for t in ts:
+                # through a memo wrapper to the function it wraps
+                real.append(t)
+            nones = [t for t in real if not (t.parent is not None and t.name == "wrapper") and self.may_return_none(t, idx)]
+            if ts and nones:
+                cand.setdefault(d.var, []).append(d)
+                srcs[id(d)] = nones[0].qualname
+        if not cand:
+            return out
+        from .shape import _atomise  # noqa
+
+        for n in own_nodes(f.node):
+            base = None
+            if isinstance(n, ast.Attribute) and isinstance(n.ctx, ast.Load) and isinstance(n.value, ast.Name):
+                base = n.value
+            elif isinstance(n, ast.Subscript) and isinstance(n.ctx, ast.Load) and isinstance(n.value, ast.Name):
+                base = n.value
+            elif isinstance(n, ast.For) and isinstance(n.iter, ast.Name):
+                base = n.iter
+            elif isinstance(n, ast.keyword) and n.arg is None and isinstance(n.value, ast.Name):
+                base = n.value
+            if base is None or base.id not in cand:
+                continue
+            node = flow.node_of(base)
+            if node is None:
+                continue
+            reaching = [d for d in flow.defs_reaching(node.id, base.id)]
+            if not reaching or not all(d in cand[base.id] for d in reaching):
+                continue
+            # guarded by a truth test on the name (or `is not None`)
+            guarded = None
+            for t, lab in list(self._dominating_tests(cfg, base)) + list(_short_circuit_facts(f.node, base)):
+                for e, truth in _atomise(t, lab == "true"):
+                    if isinstance(e, ast.Name) and e.id == base.id and truth:
+                        guarded = f"under `{base.id}`"
+                    if isinstance(e, ast.Compare) and len(e.ops) == 1 and isinstance(e.ops[0], ast.Is) and isinstance(e.left, ast.Name) \
+                            and e.left.id == base.id and isinstance(e.comparators[0], ast.Constant) and e.comparators[0].value is None and not truth:
+                        guarded = f"under `{base.id} is not None`"
+                    if isinstance(e, ast.Call) and isinstance(e.func, ast.Name) and e.func.id == "isinstance" and e.args \
+                            and isinstance(e.args[0], ast.Name) and e.args[0].id == base.id and truth:
+                        guarded = "under an isinstance test"
+                    # the very call that produced the value was tested (`if not s.path(c): raise` ... `p = s.path(c)`)
+                    if truth and isinstance(e, ast.Call) and any(d.kind == "assign" and d.value is not None and norm(d.value) == norm(e) for d in reaching):
+                        guarded = f"the same call `{norm(e)[:40]}` was tested"
+            what = n if not isinstance(n, (ast.For, ast.keyword)) else base
+            out.append((what, "AttributeError" if isinstance(n, ast.Attribute) else "TypeError", guarded, srcs.get(id(reaching[0]), "?")))
+        return out
 
     def _computed_format_string(self, f: FunctionInfo, recv: ast.AST, at: ast.AST) -> bool:
         """the receiver of .format() is an f-string (or '%'-formatted / concatenated text) with interpolated values, directly
